@@ -282,6 +282,8 @@ class StmtMixin(object):
                         out.append(self.write_field(t, obj.z, obj.ty.cls, target.attr, val, node))
                     if f is not None:
                         out.append(Res(f, None, Exc('AttributeError', origin=node.lineno)))
+                elif obj.ty == NONE:
+                    out.append(Res(r.st, None, Exc('AttributeError', origin=node.lineno)))
                 elif obj.ty == VAL:
                     c = self.spec.contracts.get('$setattr.' + target.attr)
                     if c is None:
